@@ -48,7 +48,7 @@ def run(P, R, tier):
     C13.fixed_taint(P, R, 'C17.a', None)
     zero_trip(P, R)
     from rules import common as _common2
-    _common2.forward(P, R, 'C04', ['C04.a', 'C04.b'], 'C17.c', 'cx never selects a missing/empty row: every row returned passed the exact test (no shortcut around it)', floor=4)
+    _common2.forward(P, R, 'C04', ['C04.a', 'C04.b', 'C04.f'], 'C17.c', 'cx never selects a missing/empty row: every row returned passed the exact test (no shortcut around it)', floor=4)
     from rules import common as _common
     _common.no_fastmath(P, R, 'C17.g', ['spatialpandas.geometry', 'spatialpandas.spatialindex', 'spatialpandas.utils'])
     cache = {}
